@@ -22,18 +22,23 @@ EXTENDS Naturals, Sequences, FiniteSets, TLC, Json
 CONSTANTS Pats,       \* route patterns, as a sequence in sorted order
           Urls, UserNames, \* UserNames: sequence in sorted order; "adm" and "usr" always exist beside them
           Paths,      \* stream paths, sequence in sorted order
-          PageSizes, MaxHist, EmitAt
+          PageSizes, MaxHist, EmitAt,
+          Passwords,  \* what a user's password can be set to
+          Spellings   \* how the caller writes names and patterns: "canon" as stored, "mixed" with capitals (names are
+                      \* lower-cased, patterns canonicalised: the same entry is meant)
 
 Callers == {"adm", "usr", "anon"}
 Range(s) == {s[i] : i \in 1..Len(s)}
 AllUsersSorted == <<"adm">> \o UserNames \o <<"usr">>       \* the cfg keeps UserNames between "adm" and "usr" in order
 None == "none"
+NoUser == [kind |-> "none", pw |-> "none"]       \* (a record, so that it compares with user records)
 
 VARIABLES routes,    \* [Range(Pats) -> Urls \cup {None}]
-          users,     \* [Range(UserNames) -> {None, "admin", "plain"}]
+          users,     \* [Range(UserNames) -> {NoUser} \cup [kind: {"admin", "plain"}, pw: Passwords]]
           streams,   \* [Range(Paths) -> [live: BOOLEAN, cons: SUBSET 1..2]]   (consumer slots)
           hist
 vars == <<routes, users, streams, hist>>
+Exists(u) == users[u].kind # "none"
 
 Status(c, adminOnly) == IF c = "anon" THEN 401 ELSE IF adminOnly /\ c # "adm" THEN 403 ELSE 200
 
@@ -47,36 +52,45 @@ PageOf(keys, present, token, n) ==
 NextToken(page, token) == IF page = <<>> THEN token ELSE page[Len(page)]
 
 RoutePresent == [p \in Range(Pats) |-> routes[p] # None]
-UserPresent == [u \in Range(AllUsersSorted) |-> IF u \in {"adm", "usr"} THEN TRUE ELSE users[u] # None]
+UserPresent == [u \in Range(AllUsersSorted) |-> IF u \in {"adm", "usr"} THEN TRUE ELSE Exists(u)]
 StreamPresent == [s \in Range(Paths) |-> streams[s].live]
 Count(present) == Cardinality({k \in DOMAIN present : present[k]})
 
-Rec(op, c, args, st, exp) == [op |-> op, caller |-> c, args |-> args, status |-> st, exp |-> exp]
-Log(r) == hist' = Append(hist, r)
+Rec(op, c, args, st, exp) == [op |-> op, caller |-> c, args |-> args, status |-> st, exp |-> exp, chg |-> FALSE]
+\* chg: did the call change a table or a stream (for the invariant RefusedChangedNothing)
+Log(r) == hist' = Append(hist, [r EXCEPT !.chg = (<<routes', users', streams'>> # <<routes, users, streams>>)])
 
-SaveRoute(c, p, u) == LET st == Status(c, TRUE) IN
+SaveRoute(c, p, u, sp) == LET st == Status(c, TRUE) IN
   /\ routes' = IF st = 200 THEN [routes EXCEPT ![p] = u] ELSE routes
-  /\ UNCHANGED <<users, streams>> /\ Log(Rec("saveRoute", c, [pattern |-> p, url |-> u], st, [none |-> TRUE]))
-DelRoute(c, p) == LET st == Status(c, TRUE) IN
+  /\ UNCHANGED <<users, streams>> /\ Log(Rec("saveRoute", c, [pattern |-> p, url |-> u, spell |-> sp], st, [none |-> TRUE]))
+DelRoute(c, p, sp) == LET st == Status(c, TRUE) IN
   /\ routes' = IF st = 200 THEN [routes EXCEPT ![p] = None] ELSE routes
-  /\ UNCHANGED <<users, streams>> /\ Log(Rec("delRoute", c, [pattern |-> p], st, [none |-> TRUE]))
-GetRoute(c, p) == LET st == Status(c, TRUE) IN
+  /\ UNCHANGED <<users, streams>> /\ Log(Rec("delRoute", c, [pattern |-> p, spell |-> sp], st, [none |-> TRUE]))
+GetRoute(c, p, sp) == LET st == Status(c, TRUE) IN
   /\ UNCHANGED <<routes, users, streams>>
-  /\ Log(Rec("getRoute", c, [pattern |-> p], IF st = 200 /\ routes[p] = None THEN 404 ELSE st, [url |-> routes[p]]))
+  /\ Log(Rec("getRoute", c, [pattern |-> p, spell |-> sp], IF st = 200 /\ routes[p] = None THEN 404 ELSE st, [url |-> routes[p]]))
 ListRoutes(c, n, tok) == LET st == Status(c, TRUE)
                              pg == PageOf(Pats, RoutePresent, tok, n) IN
   /\ UNCHANGED <<routes, users, streams>>
   /\ Log(Rec("listRoutes", c, [size |-> n, token |-> tok], st, [items |-> pg, total |-> Count(RoutePresent), next |-> NextToken(pg, tok)]))
 
-SaveUser(c, u, kind) == LET st == Status(c, TRUE) IN
-  /\ users' = IF st = 200 THEN [users EXCEPT ![u] = kind] ELSE users
-  /\ UNCHANGED <<routes, streams>> /\ Log(Rec("saveUser", c, [name |-> u, admin |-> kind = "admin"], st, [none |-> TRUE]))
-DelUser(c, u) == LET st == Status(c, TRUE) IN
-  /\ users' = IF st = 200 THEN [users EXCEPT ![u] = None] ELSE users
-  /\ UNCHANGED <<routes, streams>> /\ Log(Rec("delUser", c, [name |-> u], st, [none |-> TRUE]))
-GetUser(c, u) == LET st == Status(c, TRUE) IN
+\* update keeps the password unless asked to change it (update_password=1); a new user gets the password given
+SaveUser(c, u, kind, pw, upd, sp) == LET st == Status(c, TRUE)
+                                        newpw == IF ~Exists(u) \/ upd THEN pw ELSE users[u].pw IN
+  /\ users' = IF st = 200 THEN [users EXCEPT ![u] = [kind |-> kind, pw |-> newpw]] ELSE users
+  /\ UNCHANGED <<routes, streams>>
+  /\ Log(Rec("saveUser", c, [name |-> u, admin |-> kind = "admin", pw |-> pw, upd |-> upd, spell |-> sp], st, [none |-> TRUE]))
+DelUser(c, u, sp) == LET st == Status(c, TRUE) IN
+  /\ users' = IF st = 200 THEN [users EXCEPT ![u] = NoUser] ELSE users
+  /\ UNCHANGED <<routes, streams>> /\ Log(Rec("delUser", c, [name |-> u, spell |-> sp], st, [none |-> TRUE]))
+GetUser(c, u, sp) == LET st == Status(c, TRUE) IN
   /\ UNCHANGED <<routes, users, streams>>
-  /\ Log(Rec("getUser", c, [name |-> u], IF st = 200 /\ users[u] = None THEN 404 ELSE st, [admin |-> users[u] = "admin"]))
+  /\ Log(Rec("getUser", c, [name |-> u, spell |-> sp], IF st = 200 /\ ~Exists(u) THEN 404 ELSE st,
+             [admin |-> users[u].kind = "admin"]))
+\* logging in needs no token: it succeeds exactly with the password the user has now
+Login(u, pw, sp) ==
+  /\ UNCHANGED <<routes, users, streams>>
+  /\ Log(Rec("login", "anon", [name |-> u, pw |-> pw, spell |-> sp], IF Exists(u) /\ users[u].pw = pw THEN 200 ELSE 403, [none |-> TRUE]))
 ListUsers(c, n, tok) == LET st == Status(c, TRUE)
                             pg == PageOf(AllUsersSorted, UserPresent, tok, n) IN
   /\ UNCHANGED <<routes, users, streams>>
@@ -109,12 +123,14 @@ StopConsumer(c, s, k) == LET st == Status(c, TRUE) IN
   /\ Log(Rec("stopConsumer", c, [path |-> s, slot |-> k], st, [live |-> streams'[s].live, cc |-> Cardinality(streams'[s].cons)]))
 
 Tokens(keys) == {""} \cup Range(keys)
-Init == /\ routes = [p \in Range(Pats) |-> None] /\ users = [u \in Range(UserNames) |-> None]
+Init == /\ routes = [p \in Range(Pats) |-> None] /\ users = [u \in Range(UserNames) |-> NoUser]
         /\ streams = [s \in Range(Paths) |-> [live |-> FALSE, cons |-> {}]] /\ hist = <<>>
 Next == /\ Len(hist) < MaxHist
-        /\ \/ \E c \in Callers, p \in Range(Pats) : (\E u \in Urls : SaveRoute(c, p, u)) \/ DelRoute(c, p) \/ GetRoute(c, p)
+        /\ \/ \E c \in Callers, p \in Range(Pats), sp \in Spellings : (\E u \in Urls : SaveRoute(c, p, u, sp)) \/ DelRoute(c, p, sp) \/ GetRoute(c, p, sp)
            \/ \E c \in Callers, n \in PageSizes, t \in Tokens(Pats) : ListRoutes(c, n, t)
-           \/ \E c \in Callers, u \in Range(UserNames) : (\E k \in {"admin", "plain"} : SaveUser(c, u, k)) \/ DelUser(c, u) \/ GetUser(c, u)
+           \/ \E c \in Callers, u \in Range(UserNames), sp \in Spellings :
+                 (\E k \in {"admin", "plain"}, pw \in Passwords, upd \in BOOLEAN : SaveUser(c, u, k, pw, upd, sp)) \/ DelUser(c, u, sp) \/ GetUser(c, u, sp)
+           \/ \E u \in Range(UserNames), pw \in Passwords, sp \in Spellings : Login(u, pw, sp)
            \/ \E c \in Callers, n \in PageSizes, t \in Tokens(AllUsersSorted) : ListUsers(c, n, t)
            \/ \E s \in Range(Paths) : Pub(s) \/ \E k \in 1..2 : Att(s, k)
            \/ \E c \in Callers, n \in PageSizes, t \in Tokens(Paths) : ListStreams(c, n, t)
@@ -125,15 +141,14 @@ Emit == Len(hist) >= EmitAt => PrintT(<<"@A", ToJson(hist)>>)
 View == <<routes, users, streams>>
 \* first (BFS-shortest) history per class of call: (operation, caller, arguments, expected answer, payload); needs
 \* -workers 1 and INIT InitR
-EdgeClass == LET h == hist'[Len(hist')] IN <<h.op, h.caller, h.args, h.status, h.exp>>
+EdgeClass == LET h == hist'[Len(hist')] IN <<h.op, h.caller, h.args, h.status, h.exp>>   \* (chg follows from these)
 EmitEdge == IF EdgeClass \in TLCGet(1) THEN TRUE
             ELSE TLCSet(1, TLCGet(1) \cup {EdgeClass}) /\ PrintT(<<"@A", ToJson(hist')>>)
 InitR == Init /\ TLCSet(1, {})
 
 (* ---- properties of the model itself ------------------------------------------------------------------------- *)
-\* a call by anyone but an administrator never changes a table or a stream
-RefusedChangesNothing == [][\A i \in 1..Len(hist') : (i = Len(hist') /\ Len(hist') > Len(hist) /\ hist'[i].status \in {401, 403})
-                               => UNCHANGED <<routes, users, streams>>]_vars
+\* a call that is refused (401 / 403) never changes a table or a stream
+RefusedChangedNothing == \A i \in 1..Len(hist) : hist[i].status \in {401, 403} => ~hist[i].chg
 \* walking the pages of a listing visits every present key exactly once, in order
 RECURSIVE Walk(_, _, _, _, _)
 Walk(keys, present, tok, n, fuel) == IF fuel = 0 THEN <<>> ELSE
